@@ -1,7 +1,9 @@
 /-
   Umbrella of property C11: the per-interface rule and the first mesh-level theorems (Props/C11.lean) and the
-  preservation of mesh consistency by `generate_mesh` without merging (Props/C11mesh.lean).
+  preservation of mesh consistency by `generate_mesh` without merging (Props/C11mesh.lean) and with merging of
+  pairwise vertex-disjoint pairs (Props/C11merge.lean).
   lean/props.json names this module for C11, so that `./check C11` builds and audits both.
 -/
 import ForsysModel.Props.C11
 import ForsysModel.Props.C11mesh
+import ForsysModel.Props.C11merge
